@@ -5,6 +5,7 @@ mod s_bigrat;
 mod s_biguint;
 mod s_date;
 mod s_preview;
+mod s_crash;
 mod s_serde;
 mod s_text;
 
@@ -34,6 +35,7 @@ fn main() {
         "evalhex" => s_text::evalhex_line,
         "strlit" => s_text::strlit_line,
         "preview" => s_preview::line,
+        "crash" => s_crash::line,
         "serde" => s_serde::serde_line,
         "deser" => s_serde::deser_line,
         _ => {
